@@ -29,16 +29,33 @@ class NotAbstractable(Unsupported):
     pass
 
 
+class PathEnd(Exception):
+    """the current symbolic path is finished (cut at a loop head) or infeasible"""
+
+
+class PendLin:
+    """the accumulator of a coalesced-doubling loop at a cut: the element whose
+    product by 2^N is W (N the symbolic number of pending doublings).  Only
+    `set_xdouble(N + c)` can consume it (giving W * 2^c)."""
+    __slots__ = ("W", "N")
+
+    def __init__(self, W, N):
+        self.W, self.N = W, N
+
+
 # --------------------------------------------------------------------------
 # symbolic machine integers
 
 class SymV:
     """machine integer depending on symbolic digits: z3 bit-vector term `e`,
     optionally with an integer view `iv` (z3 Int term equal to its value)"""
-    __slots__ = ("e", "bits", "signed", "iv")
+    __slots__ = ("e", "bits", "signed", "iv", "z")
 
-    def __init__(self, e, bits, signed, iv=None):
+    def __init__(self, e, bits, signed, iv=None, z=None):
         self.e, self.bits, self.signed, self.iv = e, bits, signed, iv
+        # z: Boolean term equivalent to `value == 0` (kept through extensions and `|`;
+        # the two bit-vector facts used are proved once by z3, see bv_lemmas())
+        self.z = z if z is not None else ((iv == 0) if iv is not None else None)
 
     def __repr__(self):
         return "Sym%s%d(%s)" % ("i" if self.signed else "u", self.bits, str(self.e)[:60])
@@ -48,12 +65,18 @@ class SymV:
             return self.iv
         return z3.BV2Int(self.e, is_signed=self.signed)
 
+    def __deepcopy__(self, memo):
+        return self
+
 
 class SymB:
     __slots__ = ("e",)
 
     def __init__(self, e):
         self.e = e
+
+    def __deepcopy__(self, memo):
+        return self
 
 
 def bv(x, bits=None):
@@ -133,6 +156,9 @@ class Lin:
                 r[(g, 1)] = r.get((g, 1), 0) + v * q
         return Lin(r)
 
+    def __deepcopy__(self, memo):
+        return self
+
     def __repr__(self):
         return "Lin(%s)" % ", ".join("%s%s:%s" % (g, "*mu" if e else "", str(v)[:40]) for (g, e), v in self.c.items())
 
@@ -147,6 +173,9 @@ class Coord:
 
     def __init__(self, lin, idx, kind):
         self.lin, self.idx, self.kind = lin, idx, kind
+
+    def __deepcopy__(self, memo):
+        return self
 
     def __repr__(self):
         return "Coord(%s.%d)" % (self.kind, self.idx)
@@ -180,7 +209,8 @@ class Config:
     """per-curve description of what is intercepted and with which contract"""
 
     def __init__(self, module, point="Point", affine=None, window_bits=5, endo=None,
-                 endo_name="zeta", lookups=(), recoders=None, splits=None, tables=None, affine_rz=False):
+                 endo_name="zeta", lookups=(), recoders=None, splits=None, tables=None, affine_rz=False,
+                 naf_recoders=()):
         self.module = module
         self.point = point
         self.affine = affine              # name of the affine struct type (or None)
@@ -192,6 +222,7 @@ class Config:
         self.splits = splits or {}        # name -> contract id
         self.tables = tables or {}        # static short name -> (shift, 'all'|'odd')
         self.affine_rz = affine_rz
+        self.naf_recoders = set(naf_recoders)
 
 
 class AlgoInterp(Interp):
@@ -206,6 +237,12 @@ class AlgoInterp(Interp):
         self.ops = {}              # intercepted operation counts
         self.fresh = 0
         self._arity = {}
+        self.streams = []          # (digits, generator Lin) per NAF-recoded value
+        self.scalar_gen = {}       # scalar token name -> Lin it multiplies
+        self.int_gen = []          # (z3 Int var, Lin) for recoded integers (split halves, u128 arguments)
+        self.path = []             # path condition (z3 Bool) of the path being executed
+        self.pending_paths = []    # forked (frame, block, path condition)
+        self.nforks = 0
         self.recoded = []          # scalar tokens handed to a recoder
         self.masks = []            # Boolean mask variables introduced by contracts
         self.lemmas = []           # (label, status, seconds) of solver-proved rewrite lemmas
@@ -223,7 +260,7 @@ class AlgoInterp(Interp):
         kind = self.cfg.module + "::" + ty
         return Agg("struct", [Coord(lin, i, kind) for i in range(len(names))], kind, list(names))
 
-    def as_lin(self, v, what="point"):
+    def as_lin(self, v, what="point", pending=False):
         if isinstance(v, Ref):
             v = v.get()
         if isinstance(v, Agg) and v.fields and all(isinstance(f, Coord) for f in v.fields):
@@ -231,6 +268,8 @@ class AlgoInterp(Interp):
             k0 = v.fields[0].kind
             if all(f.lin is l0 and f.idx == i and f.kind == k0 for i, f in enumerate(v.fields)) and \
                     len(v.fields) == len(self.arity(k0.split("::")[-1])):
+                if isinstance(l0, PendLin) and not pending:
+                    raise NotAbstractable("operation on the accumulator before its pending doublings are applied")
                 return l0
         raise NotAbstractable("%s is not an intact abstract element: %r" % (what, v))
 
@@ -259,11 +298,15 @@ class AlgoInterp(Interp):
         if isinstance(v, SymV) and it:
             bits, sg = it
             if bits == v.bits:
-                return SymV(v.e, bits, sg, v.iv if sg == v.signed else None)
+                return SymV(v.e, bits, sg, v.iv if sg == v.signed else None, v.z)
             if bits < v.bits:
                 return SymV(z3.Extract(bits - 1, 0, v.e), bits, sg)
             ext = z3.SignExt if v.signed else z3.ZeroExt
-            return SymV(ext(bits - v.bits, v.e), bits, sg, v.iv if (sg == v.signed or not v.signed) else None)
+            iv = v.iv if (sg == v.signed or not v.signed) else None
+            if iv is None and v.iv is not None and v.signed and not sg:
+                if not self.feasible(v.iv < 0):
+                    iv = v.iv
+            return SymV(ext(bits - v.bits, v.e), bits, sg, iv, v.z)
         if isinstance(v, SymB) and it:
             return SymV(z3.If(v.e, z3.BitVecVal(1, it[0]), z3.BitVecVal(0, it[0])), it[0], it[1])
         raise NotAbstractable("cast (%s, %s) of %r" % (ty, kind, v))
@@ -274,7 +317,12 @@ class AlgoInterp(Interp):
                 if op == "Not":
                     return SymV(~a.e, a.bits, a.signed)
                 if op == "Neg":
-                    return SymV(-a.e, a.bits, a.signed)
+                    iv = None
+                    if a.iv is not None and a.signed:
+                        iv = -a.iv
+                        self.side.append(("negation does not overflow",
+                                          self.under_path(a.iv > -(1 << (a.bits - 1)))))
+                    return SymV(-a.e, a.bits, a.signed, iv)
             if isinstance(a, SymB) and op == "Not":
                 return SymB(z3.Not(a.e))
             if isinstance(a, (Coord, Lin)):
@@ -315,8 +363,21 @@ class AlgoInterp(Interp):
                 y = yb & z3.BitVecVal(bits - 1, bits)
             if op.startswith("Shl"):
                 return SymV(x << y, bits, sg)
-            return SymV((x >> y) if sg else z3.LShR(x, y), bits, sg)
+            iv = None
+            if isinstance(a, SymV) and a.iv is not None and not sg and isinstance(b, IntV):
+                iv = a.iv / (1 << (b.v % bits))
+            return SymV((x >> y) if sg else z3.LShR(x, y), bits, sg, iv)
         x, y = bv(a, bits), bv(b, bits)
+        ia, ib = _ivof(a), _ivof(b)
+        if ia is not None and ib is not None and op in ("Eq", "Ne", "Lt", "Le", "Gt", "Ge") and \
+                _signed(a) == _signed(b):
+            return SymB({"Eq": ia == ib, "Ne": ia != ib, "Lt": ia < ib, "Le": ia <= ib,
+                         "Gt": ia > ib, "Ge": ia >= ib}[op])
+        if op in ("Add", "AddUnchecked", "Sub", "SubUnchecked") and ia is not None and ib is not None:
+            iv = ia + ib if op.startswith("Add") else ia - ib
+            lo, hi = (-(1 << (bits - 1)), (1 << (bits - 1)) - 1) if sg else (0, (1 << bits) - 1)
+            self.side.append(("no wrap-around in %s" % op, self.under_path(z3.And(iv >= lo, iv <= hi))))
+            return SymV(x + y if op.startswith("Add") else x - y, bits, sg, z3.simplify(iv))
         if op in ("Add", "AddUnchecked"):
             return SymV(x + y, bits, sg)
         if op in ("Sub", "SubUnchecked"):
@@ -326,9 +387,14 @@ class AlgoInterp(Interp):
         if op == "BitAnd":
             return SymV(x & y, bits, sg)
         if op == "BitOr":
-            return SymV(x | y, bits, sg)
+            za, zb = _zof(a), _zof(b)
+            return SymV(x | y, bits, sg, None, z3.And(za, zb) if za is not None and zb is not None else None)
         if op == "BitXor":
             return SymV(x ^ y, bits, sg)
+        if op in ("Eq", "Ne"):
+            for p_, q_ in ((a, b), (b, a)):
+                if isinstance(q_, IntV) and q_.v == 0 and isinstance(p_, SymV) and p_.z is not None:
+                    return SymB(p_.z if op == "Eq" else z3.Not(p_.z))
         if op == "Eq":
             return SymB(x == y)
         if op == "Ne":
@@ -346,9 +412,105 @@ class AlgoInterp(Interp):
     def assert_ext(self, fr, t, v, expect):
         if isinstance(v, SymB):
             self.side.append(("assert in %s: %s" % (fr.body.name.rsplit("::", 1)[-1], t.text[:60]),
-                              v.e if expect else z3.Not(v.e)))
+                              self.under_path(v.e if expect else z3.Not(v.e))))
             return
         raise NotAbstractable("assert on %r" % (v,))
+
+    # ------------------------------------------------------------------
+    # symbolic control flow: fork the top-level frame, one path at a time
+    def under_path(self, cond):
+        return z3.Implies(z3.And(self.path), cond) if self.path else cond
+
+    def feasible(self, cond):
+        s = z3.Solver()
+        s.set("timeout", 10000)
+        for a in self.assumptions:
+            s.add(a)
+        for c in self.path:
+            s.add(c)
+        s.add(cond)
+        self.nfeas = getattr(self, "nfeas", 0) + 1
+        return s.check() != z3.unsat
+
+    def switch_ext(self, fr, t, v, bb):
+        import copy
+        if isinstance(v, SymB):
+            conds = []
+            for val, tgt in t.targets:
+                if val is None:
+                    conds.append((None, tgt))
+                else:
+                    conds.append((v.e if val else z3.Not(v.e), tgt))
+            if len(conds) == 2 and conds[1][0] is None:
+                conds[1] = (z3.Not(conds[0][0]), conds[1][1])
+        elif isinstance(v, SymV):
+            conds = []
+            used = []
+            for val, tgt in t.targets:
+                if val is None:
+                    conds.append((z3.And([z3.Not(u) for u in used]) if used else z3.BoolVal(True), tgt))
+                else:
+                    c = v.e == z3.BitVecVal(val, v.bits)
+                    used.append(c)
+                    conds.append((c, tgt))
+        else:
+            raise NotAbstractable("switchInt on %r" % (v,))
+        # without pruning, infeasible paths are simply carried along: their path
+        # condition is contradictory and every lemma on them holds vacuously
+        feas = [(c, tgt) for c, tgt in conds if (not getattr(self, "prune", True)) or self.feasible(c)]
+        if not feas:
+            raise PathEnd()
+        if len(feas) > 1 and fr.depth != 1:
+            raise NotAbstractable("data-dependent branch inside %s" % fr.body.name.rsplit("::", 1)[-1])
+        for c, tgt in feas[1:]:
+            self.nforks += 1
+            if self.nforks > 200000:
+                raise NotAbstractable("too many paths")
+            self.pending_paths.append((copy.deepcopy(fr), tgt, list(self.path) + [c]))
+        self.path.append(feas[0][0])
+        return feas[0][1]
+
+    def run_forking(self, item, args, on_return):
+        """execute `item`; every path that reaches the function's return calls
+        on_return(frame-or-None, return value).  Paths may end earlier by raising PathEnd
+        (cuts at loop heads are implemented by the loop hook)."""
+        nm, which = item if isinstance(item, tuple) else (item, 0)
+        body = self.mir.body(nm, which)
+        self.executed[body.name] += 1
+        from .interp import Frame
+        fr = Frame(body, 1)
+        for (loc, ty), a in zip(body.params, args):
+            fr.cell(loc).val = a
+        self.path = []
+        work = [(fr, 0, [])]
+        self.pending_paths = []
+        while work or self.pending_paths:
+            if not work:
+                work.append(self.pending_paths.pop())
+            f, bb, pc = work.pop()
+            self.path = pc
+            try:
+                rv = self._exec(f, bb)
+                on_return(f, rv)
+            except PathEnd:
+                pass
+
+    def index_ext(self, fr, base_ref, iv):
+        """read through a data-dependent index: ite-merge of the entries"""
+        arr = base_ref.get()
+        if not isinstance(iv, SymV) or not isinstance(arr, Agg) or not arr.fields:
+            raise NotAbstractable("symbolic index %r" % (iv,))
+        idx = iv.iv if iv.iv is not None else None
+        n = len(arr.fields)
+        if isinstance(arr.fields[0], Agg):
+            lins = [self.as_lin(e, "table entry") for e in arr.fields]
+            kind = arr.fields[0].path.split("::")[-1]
+            res = lins[n - 1]
+            for j in range(n - 2, -1, -1):
+                c = (idx == j) if idx is not None else (iv.e == z3.BitVecVal(j, iv.bits))
+                res = Lin.ite(c, lins[j], res)
+            return Cell(self.wrap(res, kind)), ()
+        raise NotAbstractable("symbolic index into an array of %r" % (arr.fields[0],))
 
     # ------------------------------------------------------------------
     def mask_cond(self, ctl, what):
@@ -409,7 +571,8 @@ class AlgoInterp(Interp):
         m = cal.method
         owner = cal.self_short
         toks = [a.get() if isinstance(a, Ref) else a for a in args]
-        if toks and isinstance(toks[0], ScalarTok) and m not in cfg.recoders and m not in cfg.splits:
+        if toks and isinstance(toks[0], ScalarTok) and m not in cfg.recoders and m not in cfg.splits \
+                and m not in cfg.naf_recoders:
             # arithmetic in the scalar field on an opaque scalar (C01): only `mul2` is modelled
             if m == "mul2" and len(args) == 1:
                 self.count("scalar.mul2")
@@ -445,9 +608,21 @@ class AlgoInterp(Interp):
         if m == "set_xdouble" and len(args) == 2:
             self.count(m)
             n = args[1]
+            a = self.as_lin(args[0], pending=True)
+            if isinstance(a, PendLin):
+                if isinstance(n, IntV):
+                    d = z3.simplify(z3.IntVal(n.v) - a.N)
+                elif isinstance(n, SymV) and n.iv is not None:
+                    d = z3.simplify(n.iv - a.N)
+                else:
+                    raise NotAbstractable("doubling count without integer view")
+                if not z3.is_int_value(d) or d.as_long() < 0:
+                    raise NotAbstractable("doubling count %s is not the pending count plus a constant" % d)
+                args[0].set(self.wrap(a.W.scale(1 << d.as_long())))
+                return UNIT
             if not isinstance(n, IntV):
                 raise NotAbstractable("symbolic doubling count")
-            args[0].set(self.wrap(L(args[0]).scale(1 << n.v)))
+            args[0].set(self.wrap(a.scale(1 << n.v)))
             return UNIT
         if m == "set_neg" and len(args) == 1:
             self.count(m)
@@ -498,6 +673,8 @@ class AlgoInterp(Interp):
             return self.lookup(fr, cal, args)
         if m in cfg.recoders:
             return self.recode(cal, args)
+        if m in cfg.naf_recoders:
+            return self.recode_naf(fr, cal, args)
         if m in cfg.splits:
             return self.split(cal, args)
         return NotImplemented
@@ -597,6 +774,46 @@ class AlgoInterp(Interp):
         self.digits[label] = (ds, w)
         return Agg("array", ds)
 
+    def recode_naf(self, fr, cal, args):
+        """contract (C10 recoders): every digit is 0 or odd with |d| <= 15, and
+        sum d_j 2^j = value of the argument.  Digits outside `col_range` (if
+        set) are fixed to 0: the per-column lemmas of a worker only involve
+        the digits of its own columns."""
+        self.count("recode_naf")
+        ret = self._ret_type(fr, cal, len(args))
+        m = re.fullmatch(r"\[i8; (\d+)\]", ret.strip())
+        if not m:
+            raise NotAbstractable("NAF recoder returning %s" % ret)
+        nd = int(m.group(1))
+        idx = len(self.streams)
+        src = [a.get() if isinstance(a, Ref) else a for a in args]
+        gen = self.stream_generator(src)
+        rng = getattr(self, "col_range", None)      # (lo, hi, loop length)
+        ds = []
+        for j in range(nd):
+            if rng is not None and not (rng[0] <= (j % rng[2]) <= rng[1]):
+                ds.append(IntV(0, 8, True))
+                continue
+            D = z3.Int("e%d_%d" % (idx, j))
+            self.assumptions.append(z3.Or(D == 0, z3.And(D % 2 == 1, D >= -15, D <= 15)))
+            ds.append(SymV(z3.Int2BV(D, 8), 8, True, D))
+        self.streams.append((ds, gen))
+        return Agg("array", ds)
+
+    def stream_generator(self, src):
+        """the element multiplied by the value recoded here"""
+        s0 = src[0]
+        if isinstance(s0, ScalarTok):
+            g = self.scalar_gen.get(s0.name)
+            if g is None:
+                raise NotAbstractable("recoded scalar %s has no generator" % s0.name)
+            return g
+        if isinstance(s0, SymV) and s0.iv is not None:
+            for key, g in self.int_gen:
+                if key.eq(s0.iv):
+                    return g
+        raise NotAbstractable("cannot tell what the recoded integer multiplies")
+
     def split(self, cal, args):
         """contract (C11): k = k0 + k1*mu (mod r), returned as |k0|, sgn(k0), |k1|, sgn(k1)"""
         self.count("split")
@@ -616,6 +833,14 @@ class AlgoInterp(Interp):
         k0 = z3.If(S0, -N0, N0)
         k1 = z3.If(S1, -N1, N1)
         self.masks.extend([S0, S1])
+        g = self.scalar_gen.get(src.name)
+        if g is not None and self.cfg.endo:
+            self.int_gen.append((N0, Lin({k: _mul_int(z3.If(S0, z3.IntVal(-1), z3.IntVal(1)), v) if not isinstance(v, int)
+                                          else z3.If(S0, z3.IntVal(-v), z3.IntVal(v)) for k, v in g.c.items()})))
+            ge = g.endo(self.cfg.endo)
+            self.int_gen.append((N1, Lin({k: z3.If(S1, z3.IntVal(-v), z3.IntVal(v)) if isinstance(v, int)
+                                          else _mul_int(z3.If(S1, z3.IntVal(-1), z3.IntVal(1)), v)
+                                          for k, v in ge.c.items()})))
         self.splits_seen.append((src, k0, k1))
         return Agg("tuple", [n0, s0, n1, s1])
 
@@ -710,6 +935,42 @@ class AlgoInterp(Interp):
         for j in range(n // k):
             out.extend(self.wrap(entry(j), aty).fields)
         return Agg("array", out)
+
+
+def _ivof(x):
+    if isinstance(x, SymV):
+        return x.iv
+    if isinstance(x, IntV) and not isinstance(x, MaskV):
+        return z3.IntVal(x.v)
+    return None
+
+
+def _signed(x):
+    return x.signed
+
+
+def _zof(x):
+    if isinstance(x, SymV):
+        return x.z
+    if isinstance(x, IntV):
+        return z3.BoolVal(x.v == 0)
+    return None
+
+
+def bv_lemmas():
+    """the bit-vector facts behind SymV.z, decided by z3 for the widths in use:
+    ext(x) = 0 <-> x = 0 and (x | y) = 0 <-> x = 0 /\\ y = 0"""
+    out = []
+    for w, W in ((8, 32), (8, 64), (32, 64)):
+        x = z3.BitVec("x", w)
+        for nm, f in (("sign-extend", z3.SignExt), ("zero-extend", z3.ZeroExt)):
+            st, secs, _ = decide([], (f(W - w, x) == 0) == (x == 0), 20000)
+            out.append(("%s %d->%d preserves zero-ness" % (nm, w, W), st, secs))
+    for W in (32, 64):
+        x, y = z3.BitVec("x", W), z3.BitVec("y", W)
+        st, secs, _ = decide([], ((x | y) == 0) == z3.And(x == 0, y == 0), 20000)
+        out.append(("(x|y) = 0 <-> x = 0 and y = 0 at %d bits" % W, st, secs))
+    return out
 
 
 def _free_vars(e):
